@@ -40,8 +40,9 @@ func (t TypeURLMap) GetURLs() []string {
 }
 
 func (t TypeURLMap) Set(typename, fieldname, url string) {
-	// not setting node interface fields
-	if fieldname == common.IDFieldName {
+	// not setting node interface fields; a root field which happens to be called `id`
+	// is an ordinary field of the service which declares it
+	if fieldname == common.IDFieldName && !common.IsRootObjectName(typename) {
 		return
 	}
 
